@@ -1,7 +1,655 @@
-//! C02 — TODO
-use mc_core::Ctx;
+//! C02 — aggregation completeness and monotonicity under extra or repeated signatures.
+//!
+//! Explicit enumeration of *all sequences* (every multiset in every order) of single signatures
+//! up to a length bound over an alphabet derived from the honest signatures of a small closed
+//! registration: the honest signatures, index-subset restrictions of them, a copy listing an
+//! index twice, copies re-labelled with another / an unregistered signer slot, copies with a
+//! well-formed but wrong sigma, copies carrying a lost or out-of-range index and signatures on
+//! another message. Every element travels through its wire encodings before it is handed to the
+//! real aggregator (`Clerk::aggregate_signatures_with_type`, and for part of the lattice
+//! `mithril_common::protocol::MultiSigner::aggregate_single_signatures`); every produced aggregate
+//! travels through its encodings before it is verified with `AggregateSignature::verify`.
+//!
+//! Oracle: V = members valid by the reference single-signature check (blst, Blake2b dense mapping,
+//! exact lottery of `mc-ref`), U = union of their indices. (1) honest signatures verify;
+//! (2) |U| ≥ k ⇒ aggregation succeeds and the result verifies; (3) inserting one more element
+//! anywhere into a sequence that aggregates and verifies still aggregates and verifies.
 
-pub fn run(_ctx: &Ctx) -> ! {
-    eprintln!("C02: not implemented");
-    std::process::exit(2)
+use std::collections::{BTreeMap, BTreeSet, HashMap};
+use std::sync::Mutex;
+
+use mc_core::{Ctx, Report, Tier, par_map};
+use mithril_common::{
+    crypto_helper::{ProtocolKey, ProtocolMultiSignature},
+    entities::{ProtocolMessage, ProtocolMessagePartKey, ProtocolParameters, SingleSignature as EntitySingleSignature},
+    protocol::{MultiSigner, SignerBuilder, ToMessage},
+    test::builder::{MithrilFixture, MithrilFixtureBuilder, StakeDistributionGenerationMethod},
+};
+use mithril_stm::{
+    AggregateSignature, AggregateSignatureType, AggregateVerificationKey, AncillaryGenesisData, AncillaryProofInput, Parameters,
+    SingleSignature, VerificationKeyForConcatenation,
+};
+use serde_json::{Value, json};
+
+use crate::world::*;
+
+// ---------------------------------------------------------------------------------------------
+// a scene: one closed registration, one message, one route into the aggregator
+// ---------------------------------------------------------------------------------------------
+
+type AggFn<'a> = Box<dyn Fn(&[SingleSignature]) -> Result<AggregateSignature<D>, String> + Sync + Send + 'a>;
+type VerFn<'a> = Box<dyn Fn(&AggregateSignature<D>) -> Result<(), String> + Sync + Send + 'a>;
+/// real single-signature verification for the party registered at the signature's slot
+type SingleFn<'a> = Box<dyn Fn(&SingleSignature) -> Result<(), String> + Sync + Send + 'a>;
+
+struct Scene<'a> {
+    route: &'static str,
+    cfg: Cfg,
+    view: View,
+    msg: Vec<u8>,
+    honest: Vec<Option<CSig>>,
+    honest_other: Vec<Option<CSig>>,
+    aggregate: AggFn<'a>,
+    verify: VerFn<'a>,
+    single_verify: SingleFn<'a>,
+    /// verdict of every distinct aggregate value produced in this scene (verification is a pure
+    /// function of the value: each distinct value is decoded and verified once per wire form)
+    verified: Mutex<HashMap<String, (bool, String)>>,
+}
+
+fn stm_scene<'a>(w: &'a World, msg: &[u8], other: &[u8]) -> Scene<'a> {
+    let n = w.parties.len();
+    let m1 = msg.to_vec();
+    let m2 = msg.to_vec();
+    let m3 = msg.to_vec();
+    Scene {
+        route: "stm-clerk",
+        cfg: w.cfg.clone(),
+        view: w.view.clone(),
+        msg: msg.to_vec(),
+        honest: (0..n).map(|i| w.honest(i, msg)).collect(),
+        honest_other: (0..n).map(|i| w.honest(i, other)).collect(),
+        aggregate: Box::new(move |sigs| w.aggregate(sigs, &m1)),
+        verify: Box::new(move |a| w.verify(a, &m2)),
+        single_verify: Box::new(move |s| {
+            let Some(p) = w.view.party_by_slot(s.signer_index) else { return Err("unregistered slot".into()) };
+            let vk = VerificationKeyForConcatenation::from_bytes(&p.0).map_err(|e| format!("{e:#}"))?;
+            match mc_core::catch(|| s.verify::<D>(&w.params, &vk, &p.1, &w.avk, &m3)) {
+                Ok(Ok(())) => Ok(()),
+                Ok(Err(e)) => Err(format!("{e:#}")),
+                Err(p) => Err(format!("panic: {p}")),
+            }
+        }),
+        verified: Mutex::new(HashMap::new()),
+    }
+}
+
+/// the mithril-common layer: certified fixture signers, `SignerBuilder`, `MultiSigner`
+struct CommonWorld {
+    cfg: Cfg,
+    fixture: MithrilFixture,
+    multi_signer: MultiSigner,
+    avk: AggregateVerificationKey<D>,
+    params: Parameters,
+    view: View,
+}
+
+fn protocol_messages() -> (ProtocolMessage, ProtocolMessage) {
+    let mut a = ProtocolMessage::new();
+    a.set_message_part(ProtocolMessagePartKey::SnapshotDigest, "digest-A".to_string());
+    let mut b = ProtocolMessage::new();
+    b.set_message_part(ProtocolMessagePartKey::SnapshotDigest, "digest-B".to_string());
+    (a, b)
+}
+
+impl CommonWorld {
+    fn build(cfg: &Cfg) -> CommonWorld {
+        let pp = ProtocolParameters::new(cfg.k, cfg.m, cfg.phi_f);
+        // first pass creates the certified parties (operational certificates) and tells their ids
+        let ids: Vec<String> = MithrilFixtureBuilder::default()
+            .with_signers(cfg.n)
+            .with_protocol_parameters(pp.clone())
+            .with_stake_distribution(StakeDistributionGenerationMethod::Uniform(7))
+            .build()
+            .signers_fixture()
+            .iter()
+            .map(|s| s.signer_with_stake.party_id.clone())
+            .collect();
+        let dist: BTreeMap<String, u64> = ids.iter().cloned().zip(cfg.stakes.iter().copied()).collect();
+        let fixture = MithrilFixtureBuilder::default()
+            .with_signers(cfg.n)
+            .with_protocol_parameters(pp.clone())
+            .with_stake_distribution(StakeDistributionGenerationMethod::Custom(dist))
+            .build();
+        let multi_signer = SignerBuilder::new(&fixture.signers_with_stake(), &pp).expect("signer builder").build_multi_signer();
+        let avk = multi_signer.compute_aggregate_verification_key();
+        let j = serde_json::to_value(avk.to_concatenation_aggregate_verification_key()).expect("avk json");
+        let root: Vec<u8> = j["mt_commitment"]["root"].as_array().expect("root").iter().map(|x| x.as_u64().unwrap() as u8).collect();
+        let parties: Vec<(Vec<u8>, u64, u64)> = fixture
+            .signers_fixture()
+            .iter()
+            .map(|s| {
+                (
+                    s.signer_with_stake.verification_key_for_concatenation.vk.to_bytes().to_vec(),
+                    s.signer_with_stake.stake,
+                    s.protocol_signer.signer_index,
+                )
+            })
+            .collect();
+        let total = parties.iter().map(|p| p.1).sum();
+        let view = View { label: format!("common:{}", cfg.label()), m: cfg.m, k: cfg.k, phi_f: cfg.phi_f, total, root, parties };
+        CommonWorld { cfg: cfg.clone(), fixture, multi_signer, avk, params: Parameters { m: cfg.m, k: cfg.k, phi_f: cfg.phi_f }, view }
+    }
+
+    fn honest(&self, pm: &ProtocolMessage) -> Vec<Option<CSig>> {
+        self.fixture
+            .signers_fixture()
+            .iter()
+            .zip(self.view.parties.iter())
+            .map(|(s, p)| s.sign(pm).and_then(|e| single_to_csig(&e.to_protocol_signature(), &p.0, p.1)))
+            .collect()
+    }
+
+    fn entity(&self, s: &SingleSignature) -> EntitySingleSignature {
+        let party = self
+            .fixture
+            .signers_fixture()
+            .iter()
+            .find(|f| f.protocol_signer.signer_index == s.signer_index)
+            .map(|f| f.signer_with_stake.party_id.clone())
+            .unwrap_or_else(|| "pool1unknownparty".to_string());
+        // the wire form of a single signature in mithril-common: JSON-hex protocol key
+        let key = ProtocolKey::new(s.clone());
+        let key = key.to_json_hex().ok().and_then(|h| ProtocolKey::<SingleSignature>::from_json_hex(&h).ok()).unwrap_or(key);
+        EntitySingleSignature::new(party, key, s.get_concatenation_signature_indices())
+    }
+
+    fn scene<'a>(&'a self, pm: &ProtocolMessage, other: &ProtocolMessage) -> Scene<'a> {
+        let msg = pm.to_message().as_bytes().to_vec();
+        let (pm1, pm2) = (pm.clone(), pm.clone());
+        let m2 = msg.clone();
+        Scene {
+            route: "common-multi-signer",
+            cfg: self.cfg.clone(),
+            view: self.view.clone(),
+            msg,
+            honest: self.honest(pm),
+            honest_other: self.honest(other),
+            aggregate: Box::new(move |sigs| {
+                let entities: Vec<EntitySingleSignature> = sigs.iter().map(|s| self.entity(s)).collect();
+                match mc_core::catch(|| {
+                    self.multi_signer.aggregate_single_signatures(
+                        &entities,
+                        &pm1,
+                        AggregateSignatureType::Concatenation,
+                        AncillaryProofInput::new(None, AncillaryGenesisData::new()),
+                    )
+                }) {
+                    Ok(Ok(m)) => {
+                        let ms: ProtocolMultiSignature = m.multi_signature;
+                        let ms = ms.to_json_hex().ok().and_then(|h| ProtocolMultiSignature::from_json_hex(&h).ok()).unwrap_or(ms);
+                        Ok(ms.into_inner())
+                    }
+                    Ok(Err(e)) => Err(format!("{e:#}")),
+                    Err(p) => Err(format!("panic: {p} at {}", mc_core::last_panic_location())),
+                }
+            }),
+            verify: Box::new(move |a| match mc_core::catch(|| a.verify(&m2, &self.avk, &self.params, None, None)) {
+                Ok(Ok(())) => Ok(()),
+                Ok(Err(e)) => Err(format!("{e:#}")),
+                Err(p) => Err(format!("panic: {p}")),
+            }),
+            single_verify: Box::new(move |s| match mc_core::catch(|| self.multi_signer.verify_single_signature(&pm2, &self.entity(s))) {
+                Ok(Ok(())) => Ok(()),
+                Ok(Err(e)) => Err(format!("{e:#}")),
+                Err(p) => Err(format!("panic: {p}")),
+            }),
+            verified: Mutex::new(HashMap::new()),
+        }
+    }
+}
+
+// ---------------------------------------------------------------------------------------------
+// alphabet
+// ---------------------------------------------------------------------------------------------
+
+#[derive(Clone, Debug, PartialEq)]
+enum Validity {
+    /// valid by the reference check; the indices it contributes
+    Valid(BTreeSet<u64>),
+    Invalid(String),
+    Unknown,
+}
+
+struct El {
+    name: String,
+    csig: CSig,
+    sig: SingleSignature,
+    validity: Validity,
+    small: bool,
+}
+
+fn wire(s: &CSig) -> Option<SingleSignature> {
+    // JSON text, then the versioned bytes
+    let a = decode_single_json(s).ok()?;
+    let b = a.to_bytes().ok()?;
+    let a2 = decode_single_bytes(&b).ok()?;
+    // and the legacy layout must decode to the same value
+    if let Ok(a3) = decode_single_bytes(&s.single_legacy())
+        && serde_json::to_value(&a3).ok() != serde_json::to_value(&a2).ok()
+    {
+        return None;
+    }
+    Some(a2)
+}
+
+fn alphabet(sc: &Scene, r: &Reference) -> Vec<El> {
+    let n = sc.view.parties.len() as u64;
+    let m = sc.view.m;
+    let mut raw: Vec<(String, CSig, bool)> = vec![];
+    let signing: Vec<usize> = (0..sc.honest.len()).filter(|i| sc.honest[*i].is_some()).collect();
+    for (rank, &i) in signing.iter().enumerate() {
+        let h = sc.honest[i].clone().unwrap();
+        raw.push((format!("H{i}"), h.clone(), rank < 2));
+        if h.indexes.len() >= 2 {
+            let half = h.indexes.len() / 2;
+            let mut f = h.clone();
+            f.indexes.truncate(half);
+            raw.push((format!("F{i}(first-half)"), f, rank == 0));
+            let mut g = h.clone();
+            g.indexes = h.indexes[half..].to_vec();
+            raw.push((format!("G{i}(second-half)"), g, rank == 0));
+        }
+        if let Some(o) = &sc.honest_other[i] {
+            raw.push((format!("O{i}(other-message)"), o.clone(), rank == 0));
+        }
+    }
+    if let Some(&i) = signing.first() {
+        let h = sc.honest[i].clone().unwrap();
+        let mut t = h.clone();
+        t.indexes.truncate(1);
+        raw.push((format!("T{i}(first-index-only)"), t, true));
+        let mut d = h.clone();
+        d.indexes.push(h.indexes[0]);
+        raw.push((format!("D{i}(index-listed-twice)"), d, signing.len() < 2));
+        if let Some(other_slot) = sc.view.parties.iter().map(|p| p.2).find(|s| *s != h.slot) {
+            let mut x = h.clone();
+            x.slot = other_slot;
+            raw.push((format!("R{i}(relabelled-slot-{other_slot})"), x, false));
+        }
+        let mut x = h.clone();
+        x.slot = n;
+        raw.push((format!("X{i}(unregistered-slot-{n})"), x, true));
+        if let Some(sg) = sigma_shift(&h.sigma, 1) {
+            let mut c = h.clone();
+            c.sigma = sg;
+            raw.push((format!("C{i}(sigma+G)"), c, false));
+        }
+        if let Some(lost) = (0..m).find(|x| !h.indexes.contains(x)) {
+            let mut l = h.clone();
+            l.indexes.push(lost);
+            raw.push((format!("L{i}(+lost-index-{lost})"), l, false));
+        }
+        let mut mm = h.clone();
+        mm.indexes.push(m);
+        raw.push((format!("M{i}(+index-m)"), mm, true));
+    }
+    let mut out = vec![];
+    for (name, c, small) in raw {
+        let Some(sig) = wire(&c) else { continue };
+        // reference validity, for the party registered at the slot the signature names
+        let validity = match sc.view.party_by_slot(c.slot) {
+            None => Validity::Invalid("names an unregistered signer slot".into()),
+            Some(p) => {
+                let as_party = CSig { vk: p.0.clone(), stake: p.1, ..c.clone() };
+                match r.single(&sc.view, &sc.msg, &as_party) {
+                    Judge::Holds => Validity::Valid(c.indexes.iter().copied().collect()),
+                    Judge::CannotJudge => Validity::Unknown,
+                    Judge::Fails(_, why) => Validity::Invalid(why),
+                }
+            }
+        };
+        out.push(El { name, csig: c, sig, validity, small });
+    }
+    out
+}
+
+// ---------------------------------------------------------------------------------------------
+// running sequences
+// ---------------------------------------------------------------------------------------------
+
+#[derive(Clone, Debug)]
+struct Res {
+    success: bool,
+    verifies: bool,
+    label: &'static str,
+    detail: String,
+}
+
+fn run_seq(sc: &Scene, alpha: &[El], seq: &[u8]) -> Res {
+    let sigs: Vec<SingleSignature> = seq.iter().map(|i| alpha[*i as usize].sig.clone()).collect();
+    match (sc.aggregate)(&sigs) {
+        Err(e) => Res { success: false, verifies: false, label: reject_label(&e), detail: e },
+        Ok(a) => {
+            let canon = serde_json::to_string(&a).unwrap_or_default();
+            if let Some((ok, detail)) = sc.verified.lock().unwrap().get(&canon).cloned() {
+                return Res { success: true, verifies: ok, label: if ok { "aggregated+verifies" } else { "aggregated+DOES-NOT-VERIFY" }, detail };
+            }
+            // the aggregate travels as versioned bytes and as JSON before it is verified
+            let via_bytes = a.to_bytes().map_err(|e| format!("{e:#}")).and_then(|b| decode_aggregate_bytes(&b));
+            let via_json = serde_json::from_str::<AggregateSignature<D>>(&canon).map_err(|e| e.to_string());
+            let mut detail = String::new();
+            let mut ok = true;
+            for (form, v) in [("bytes", via_bytes), ("json", via_json)] {
+                match v {
+                    Err(e) => {
+                        ok = false;
+                        detail = format!("aggregate does not survive its {form} encoding: {e}");
+                    }
+                    Ok(v) => {
+                        if let Err(e) = (sc.verify)(&v) {
+                            ok = false;
+                            detail = format!("aggregate ({form} form) does not verify: {e}");
+                        }
+                    }
+                }
+            }
+            sc.verified.lock().unwrap().insert(canon, (ok, detail.clone()));
+            Res { success: true, verifies: ok, label: if ok { "aggregated+verifies" } else { "aggregated+DOES-NOT-VERIFY" }, detail }
+        }
+    }
+}
+
+fn union_of_valid(alpha: &[El], seq: &[u8]) -> Option<BTreeSet<u64>> {
+    let mut u = BTreeSet::new();
+    for i in seq {
+        match &alpha[*i as usize].validity {
+            Validity::Valid(ix) => u.extend(ix.iter().copied()),
+            Validity::Invalid(_) => {}
+            Validity::Unknown => return None,
+        }
+    }
+    Some(u)
+}
+
+fn seq_names(alpha: &[El], seq: &[u8]) -> Vec<String> {
+    seq.iter().map(|i| alpha[*i as usize].name.clone()).collect()
+}
+
+fn replay_json(sc: &Scene, alpha: &[El], seq: &[u8]) -> Value {
+    json!({
+        "route": sc.route,
+        "cfg": sc.cfg.to_json(),
+        "sequence": seq_names(alpha, seq),
+        "elements": seq.iter().map(|i| {
+            let e = &alpha[*i as usize];
+            json!({"name": e.name, "signature": e.csig.short(), "reference": format!("{:?}", e.validity)})
+        }).collect::<Vec<_>>(),
+    })
+}
+
+/// the oracle over the results of one scene (`results` holds every enumerated sequence)
+fn judge_scene(sc: &Scene, alpha: &[El], order: &[Vec<u8>], results: &HashMap<Vec<u8>, Res>, rep: &mut Report) {
+    let k = sc.view.k;
+    let label = format!("{}:{}", sc.route, sc.view.label);
+    let mut flagged: BTreeSet<Vec<u8>> = BTreeSet::new();
+    let mut flag = |rep: &mut Report, flagged: &mut BTreeSet<Vec<u8>>, s: &[u8], res: &Res, why: String| {
+        if !flagged.insert(s.to_vec()) {
+            return;
+        }
+        // a shorter sequence (one element removed) that aggregated and verified?
+        let mut smaller: Option<Vec<u8>> = None;
+        for d in 0..s.len() {
+            let mut t = s.to_vec();
+            t.remove(d);
+            if results.get(&t).is_some_and(|r| r.success && r.verifies) {
+                smaller = Some(t);
+                break;
+            }
+        }
+        let key = if res.success {
+            "C02/aggregate-does-not-verify".to_string()
+        } else {
+            match res.label {
+                "unregistered-index" => "C02/unregistered-signer-index-aborts-aggregation".to_string(),
+                "not-enough-signatures" if smaller.is_some() => "C02/extra-material-breaks-aggregation".to_string(),
+                "not-enough-signatures" => "C02/valid-quorum-not-aggregated".to_string(),
+                "panic" => "C02/aggregation-panics".to_string(),
+                other => format!("C02/aggregation-fails:{other}"),
+            }
+        };
+        let what = format!(
+            "{label}: sequence {:?} {why}; observed: {}{}",
+            seq_names(alpha, s),
+            if res.success { res.detail.clone() } else { format!("aggregation failed: {}", res.detail) },
+            match &smaller {
+                Some(t) => format!("; without one element, {:?} aggregates and verifies", seq_names(alpha, t)),
+                None => String::new(),
+            }
+        );
+        rep.violation(&key, what, replay_json(sc, alpha, s));
+    };
+    for s in order {
+        let res = &results[s];
+        rep.outcome(res.label);
+        let u = union_of_valid(alpha, s);
+        // (2) completeness
+        if let Some(u) = &u {
+            let distinct_valid: BTreeSet<&Vec<u8>> =
+                s.iter().filter(|i| matches!(alpha[**i as usize].validity, Validity::Valid(_))).map(|i| &alpha[*i as usize].csig.sigma).collect();
+            if u.len() as u64 >= k {
+                rep.nontrivial(&(&label, seq_names(alpha, s)));
+                if u.len() as u64 == k {
+                    rep.add_extra("sequences_with_exactly_k_valid_indices", 1);
+                }
+                if distinct_valid.len() >= 2 {
+                    rep.add_extra("quorum_sequences_with_several_signers", 1);
+                }
+                if s.iter().any(|i| matches!(alpha[*i as usize].validity, Validity::Invalid(_))) {
+                    rep.add_extra("quorum_sequences_with_invalid_material", 1);
+                }
+                if !(res.success && res.verifies) {
+                    flag(rep, &mut flagged, s, res, format!("holds valid signatures covering {} ≥ k={k} distinct indices, so it must aggregate and the result must verify", u.len()));
+                }
+            } else if res.success {
+                rep.add_extra("aggregated_below_reference_quorum", 1);
+            }
+        } else {
+            rep.add_extra("sequences_not_judged_(draw_inside_negligible_band)", 1);
+        }
+        // (3) monotonicity: one more element anywhere
+        if res.success && res.verifies {
+            for pos in 0..=s.len() {
+                for a in 0..alpha.len() as u8 {
+                    let mut t = s.clone();
+                    t.insert(pos, a);
+                    if let Some(rt) = results.get(&t)
+                        && !(rt.success && rt.verifies)
+                    {
+                        flag(rep, &mut flagged, &t, rt, format!("is {:?} plus '{}' at position {pos}: extra material must not turn success into failure", seq_names(alpha, s), alpha[a as usize].name));
+                    }
+                }
+            }
+        }
+    }
+}
+
+fn enumerate(alpha: &[El], l_full: usize, l_small: usize) -> Vec<Vec<u8>> {
+    let mut set: BTreeSet<Vec<u8>> = BTreeSet::new();
+    for s in mc_core::sequences(alpha.len(), l_full) {
+        set.insert(s.iter().map(|x| *x as u8).collect());
+    }
+    let small: Vec<u8> = (0..alpha.len()).filter(|i| alpha[*i].small).map(|i| i as u8).collect();
+    for s in mc_core::sequences(small.len(), l_small) {
+        set.insert(s.iter().map(|x| small[*x]).collect());
+    }
+    let mut v: Vec<Vec<u8>> = set.into_iter().collect();
+    v.sort_by(|a, b| a.len().cmp(&b.len()).then(a.cmp(b)));
+    v
+}
+
+/// (1): every honest signature verifies (real code) and is valid by the reference
+fn check_honest(sc: &Scene, alpha: &[El], rep: &mut Report) {
+    for e in alpha {
+        rep.eval();
+        let real = (sc.single_verify)(&e.sig);
+        let honest = e.name.starts_with('H');
+        match (&real, &e.validity) {
+            (Ok(()), Validity::Valid(_)) => rep.outcome("single:verifies"),
+            (Err(_), Validity::Invalid(_)) => rep.outcome("single:rejected"),
+            (_, Validity::Unknown) => rep.outcome("single:not-judged"),
+            (Ok(()), Validity::Invalid(_)) => rep.add_extra("single_accepted_but_invalid_by_reference(C01_matter)", 1),
+            (Err(_), Validity::Valid(_)) => rep.add_extra("single_rejected_but_valid_by_reference", 1),
+        }
+        if honest && (real.is_err() || matches!(e.validity, Validity::Invalid(_))) {
+            rep.violation(
+                "C02/honest-signature-does-not-verify",
+                format!("{}:{}: the signature produced by a registered signer ({}) does not verify: real={real:?} reference={:?}", sc.route, sc.view.label, e.name, e.validity),
+                json!({"route": sc.route, "cfg": sc.cfg.to_json(), "sequence": [e.name]}),
+            );
+        }
+    }
+}
+
+// ---------------------------------------------------------------------------------------------
+// driver
+// ---------------------------------------------------------------------------------------------
+
+fn common_cfgs(tier: Tier) -> Vec<Cfg> {
+    let mut out = vec![];
+    let ns: &[usize] = if tier == Tier::Thorough { &[1, 2, 3] } else { &[2, 3] };
+    for &n in ns {
+        for (m, k, phi_f) in [(4u64, 2u64, 1.0f64), (6, 3, 0.8)] {
+            out.push(Cfg { n, split: "equal", stakes: stakes_for(n, "equal"), m, k, phi_f, seed: 0 });
+        }
+    }
+    if tier == Tier::Thorough {
+        out.push(Cfg { n: 3, split: "skew1000", stakes: stakes_for(3, "skew1000"), m: 8, k: 3, phi_f: 0.5, seed: 0 });
+    }
+    out
+}
+
+/// `l_small` is (bound for equal-stake scenes, bound for the skewed ones)
+fn run_scenes(scenes: &[Scene], r: &Reference, l_full: usize, l_small: (usize, usize), threads: usize, rep: &mut Report, only: Option<&[String]>) {
+    let alphas: Vec<Vec<El>> = par_map(scenes, threads, |_, sc| alphabet(sc, r));
+    let orders: Vec<Vec<Vec<u8>>> = match only {
+        None => alphas
+            .iter()
+            .zip(scenes.iter())
+            .map(|(a, sc)| enumerate(a, l_full, if sc.cfg.split == "equal" { l_small.0 } else { l_small.1 }))
+            .collect(),
+        Some(names) => alphas
+            .iter()
+            .map(|a| {
+                // replay: the sequence and every sequence obtained by removing elements from it
+                let ids: Vec<u8> = names.iter().filter_map(|n| a.iter().position(|e| &e.name == n).map(|i| i as u8)).collect();
+                let mut set = BTreeSet::new();
+                for mask in 0u32..(1 << ids.len()) {
+                    set.insert(ids.iter().enumerate().filter(|(i, _)| mask & (1 << i) != 0).map(|(_, x)| *x).collect::<Vec<u8>>());
+                }
+                let mut v: Vec<Vec<u8>> = set.into_iter().collect();
+                v.sort_by(|x, y| x.len().cmp(&y.len()).then(x.cmp(y)));
+                v
+            })
+            .collect(),
+    };
+    for (sc, a) in scenes.iter().zip(alphas.iter()) {
+        check_honest(sc, a, rep);
+    }
+    rep.add_extra("scenes", scenes.len() as u64);
+    rep.extra(
+        &format!("alphabet_sizes_{}", scenes.first().map(|s| s.route).unwrap_or("")),
+        json!(alphas.iter().map(|a| (a.len(), a.iter().filter(|e| e.small).count())).collect::<Vec<_>>()),
+    );
+    // flatten into work items
+    let mut items: Vec<(usize, &[Vec<u8>])> = vec![];
+    for (si, o) in orders.iter().enumerate() {
+        for ch in o.chunks(128) {
+            items.push((si, ch));
+        }
+    }
+    let done: Vec<Vec<Res>> = par_map(&items, threads, |_, (si, chunk)| chunk.iter().map(|s| run_seq(&scenes[*si], &alphas[*si], s)).collect());
+    let mut results: Vec<HashMap<Vec<u8>, Res>> = scenes.iter().map(|_| HashMap::new()).collect();
+    for ((si, chunk), rs) in items.iter().zip(done) {
+        for (s, r) in chunk.iter().zip(rs) {
+            results[*si].insert(s.clone(), r);
+        }
+    }
+    let idx: Vec<usize> = (0..scenes.len()).collect();
+    let parts: Vec<Report> = par_map(&idx, threads, |_, si| {
+        let mut rp = Report::new("exploration", "");
+        for _ in 0..orders[*si].len() {
+            rp.eval();
+        }
+        judge_scene(&scenes[*si], &alphas[*si], &orders[*si], &results[*si], &mut rp);
+        if let Some(s) = orders[*si].iter().find(|s| s.len() >= 3 && results[*si][*s].success) {
+            rp.sample(json!({"scene": format!("{}:{}", scenes[*si].route, scenes[*si].view.label), "sequence": seq_names(&alphas[*si], s), "result": results[*si][s].label}));
+        }
+        rp
+    });
+    for p in parts {
+        rep.merge(p);
+    }
+}
+
+pub fn run(ctx: &Ctx) -> ! {
+    let mut rep = Report::new(
+        "exploration",
+        "all sequences (every multiset in every order) of single signatures of length ≤ L_full over the full alphabet and of \
+         length ≤ L_small over its 8-element core (honest signatures, index restrictions, index listed twice, re-labelled and \
+         unregistered slots, wrong sigma, lost / out-of-range index, other message) are aggregated by the real clerk (and, for \
+         part of the lattice, by mithril-common's MultiSigner) and the result is verified; a sequence is non-trivial when its \
+         reference-valid members cover at least k distinct indices (the completeness/monotonicity clause applies)",
+    );
+    // mithril-common's certified fixtures write operational certificates under the temp dir
+    let scratch = ctx.scratch();
+    unsafe { std::env::set_var("TMPDIR", &scratch) };
+    let r = Reference::new();
+    let threads = ctx.threads();
+    let (ma, mb) = crate::c01::messages();
+    let (pa, pb) = protocol_messages();
+
+    if let Some(path) = &ctx.replay {
+        let v = mc_core::load_replay(path);
+        let cfg = Cfg::from_json(&v["cfg"]).expect("cfg");
+        let names: Vec<String> = v["sequence"].as_array().expect("sequence").iter().map(|x| x.as_str().unwrap().to_string()).collect();
+        if v["route"].as_str() == Some("common-multi-signer") {
+            let cw = CommonWorld::build(&cfg);
+            let scenes = vec![cw.scene(&pa, &pb)];
+            run_scenes(&scenes, &r, 0, (0, 0), threads, &mut rep, Some(&names));
+        } else {
+            let w = World::build(&cfg);
+            let scenes = vec![stm_scene(&w, &ma, &mb)];
+            run_scenes(&scenes, &r, 0, (0, 0), threads, &mut rep, Some(&names));
+        }
+        rep.nontrivial(&0);
+        rep.nontrivial(&1);
+        rep.finish(ctx);
+    }
+
+    let (l_full, l_small) = ctx.tier.pick((2usize, (4usize, 3usize)), (3usize, (5usize, 4usize)));
+    rep.extra("L_full", json!(l_full));
+    rep.extra("L_small", json!({"equal_stake_configurations": l_small.0, "skewed_stake_configurations": l_small.1}));
+
+    // route 1: the STM clerk, whole configuration lattice of C01
+    let cfgs = crate::c01::configs(ctx.tier);
+    let worlds: Vec<World> = par_map(&cfgs, threads, |_, c| crate::c01::settle_seed(c).1);
+    let scenes: Vec<Scene> = worlds.iter().map(|w| stm_scene(w, &ma, &mb)).collect();
+    rep.extra("configurations_stm_clerk", json!(scenes.len()));
+    run_scenes(&scenes, &r, l_full, l_small, threads, &mut rep, None);
+
+    // route 2: mithril-common MultiSigner on certified fixture signers
+    let ccfgs = common_cfgs(ctx.tier);
+    let cworlds: Vec<CommonWorld> = ccfgs.iter().map(CommonWorld::build).collect();
+    let cscenes: Vec<Scene> = cworlds.iter().map(|cw| cw.scene(&pa, &pb)).collect();
+    rep.extra("configurations_common_multi_signer", json!(cscenes.len()));
+    let (cl_full, cl_small) = ctx.tier.pick((2usize, (3usize, 3usize)), (2usize, (4usize, 4usize)));
+    rep.extra("L_full_common", json!(cl_full));
+    rep.extra("L_small_common", json!(cl_small.0));
+    run_scenes(&cscenes, &r, cl_full, cl_small, threads, &mut rep, None);
+
+    rep.assume("blst, blake2 and num-bigint are trusted: the reference single-signature check uses them directly");
+    rep.assume("validity of a single signature = BLS-valid over msg‖root under the key registered at the slot it names, every index below m and exactly won; draws within 2^-44 of the threshold are not judged");
+    rep.assume("the aggregator's error kind below the quorum is not judged (only recorded in the outcomes); MultiSignerImpl::create_multi_signature of mithril-aggregator is covered by the aggregator checks, not here");
+    rep.finish(ctx)
 }
